@@ -1937,3 +1937,204 @@ Proof.
   - exact D2.
 Qed.
 End ContentOrder.
+
+(* ------------------------------------------------------------------------------------------ *)
+(* the dataset bytes can be read back: they determine everything that enters them               *)
+(* ------------------------------------------------------------------------------------------ *)
+Local Open Scope string_scope.
+Lemma append_eq_len : forall a b x y : string, String.length a = String.length b -> a ++ x = b ++ y -> a = b /\ x = y.
+Proof.
+  induction a as [|c a IH]; intros b x y L E; destruct b as [|c' b]; cbn in L; try discriminate.
+  - split; [reflexivity | exact E].
+  - cbn in E. injection E as Ec Et. injection L as L. destruct (IH b x y L Et) as [A X]. subst. split; reflexivity.
+Qed.
+
+Lemma str_app_assoc (a b c : string) : (a ++ b) ++ c = a ++ (b ++ c).
+Proof. induction a as [|x a IH]; cbn; [reflexivity|]. rewrite IH. reflexivity. Qed.
+
+Section DatasetProofs.
+Variable rowhash : list cell -> string.
+Variable repr_names : list string -> string.
+Variable repr_index : index_view -> string.
+Variable repr_dtypes : list string -> string.
+Hypothesis rowhash_width : forall r, String.length (rowhash r) = 8.
+Hypothesis names_dec : decodable repr_names.
+Hypothesis index_dec : decodable repr_index.
+Hypothesis dtypes_inj : forall a b, repr_dtypes a = repr_dtypes b -> a = b.
+
+Lemma cat_rows_read_back : forall (l l' : list (list cell)) (x y : string),
+  rows_sep rowhash l l' -> List.length l = List.length l' ->
+  cat_all (map rowhash l) ++ x = cat_all (map rowhash l') ++ y -> l = l' /\ x = y.
+Proof.
+  induction l as [|r l IH]; intros l' x y S L E; destruct l' as [|r' l']; cbn in L; try discriminate.
+  - split; [reflexivity | exact E].
+  - cbn [map cat_all fold_right] in E. fold (cat_all (map rowhash l)) in E. fold (cat_all (map rowhash l')) in E.
+    rewrite !str_app_assoc in E.
+    destruct (append_eq_len _ _ _ _ (eq_trans (rowhash_width r) (eq_sym (rowhash_width r'))) E) as [Er Et].
+    apply (S r r' (or_introl eq_refl) (or_introl eq_refl)) in Er. subst r'. injection L as L.
+    destruct (IH l' x y (fun a b Ha Hb => S a b (or_intror Ha) (or_intror Hb)) L Et) as [A X]. subst. split; reflexivity.
+Qed.
+
+Lemma ds_bytes_read_back f g :
+  rows_sep rowhash (f_rows f) (f_rows g) -> List.length (f_rows f) = List.length (f_rows g) ->
+  ds_bytes rowhash repr_names repr_index repr_dtypes f = ds_bytes rowhash repr_names repr_index repr_dtypes g ->
+  ds_input f = ds_input g.
+Proof.
+  intros S L E. unfold ds_bytes in E. destruct (cat_rows_read_back _ _ _ _ S L E) as [Er E1].
+  pose proof (names_dec _ _ _ _ E1) as Ec. rewrite Ec in E1. apply append_inv_head in E1.
+  pose proof (index_dec _ _ _ _ E1) as Ei. rewrite Ei in E1. apply append_inv_head in E1.
+  apply dtypes_inj in E1. unfold ds_input. rewrite Er, Ec, Ei, E1. reflexivity.
+Qed.
+
+Lemma ds_bytes_same_input f g :
+  ds_input f = ds_input g ->
+  ds_bytes rowhash repr_names repr_index repr_dtypes f = ds_bytes rowhash repr_names repr_index repr_dtypes g.
+Proof. unfold ds_input, ds_bytes. intros E. injection E as E1 E2 E3 E4. rewrite E1, E2, E3, E4. reflexivity. Qed.
+End DatasetProofs.
+
+Lemma key_separates_frames G dumps digest (H : string -> digest)
+      (rowhash : list cell -> string) (repr_names : list string -> string) (repr_index : index_view -> string)
+      (repr_dtypes : list string -> string) (f g : frame) (m : model G) :
+  (forall r, String.length (rowhash r) = 8) -> rows_sep rowhash (f_rows f) (f_rows g) ->
+  decodable repr_names -> decodable repr_index -> (forall a b, repr_dtypes a = repr_dtypes b -> a = b) ->
+  let bytes := ds_bytes rowhash repr_names repr_index repr_dtypes in
+  let d := model_encode G (blank G m) in
+  List.length (f_rows f) = List.length (f_rows g) -> ds_input f <> ds_input g ->
+  H_sep H (bytes f ++ dumps d) (bytes g ++ dumps d) ->
+  key G dumps digest H (bytes f) m <> key G dumps digest H (bytes g) m.
+Proof.
+  intros W I N X D bytes d L NE HS. apply key_separates_dataset; [exact HS|].
+  intro E. apply NE. apply (ds_bytes_read_back rowhash repr_names repr_index repr_dtypes W N X D f g I L E).
+Qed.
+
+Lemma key_same_frames G dumps digest (H : string -> digest)
+      (rowhash : list cell -> string) (repr_names : list string -> string) (repr_index : index_view -> string)
+      (repr_dtypes : list string -> string) (f g : frame) (m : model G) :
+  ds_input f = ds_input g ->
+  key G dumps digest H (ds_bytes rowhash repr_names repr_index repr_dtypes f) m =
+  key G dumps digest H (ds_bytes rowhash repr_names repr_index repr_dtypes g) m.
+Proof. intros E. rewrite (ds_bytes_same_input rowhash repr_names repr_index repr_dtypes f g E). reflexivity. Qed.
+
+(* ------------------------------------------------------------------------------------------ *)
+(* Results JSON round trip                                                                    *)
+(* ------------------------------------------------------------------------------------------ *)
+Local Open Scope string_scope.
+Lemma dget_app_none k a b : dget k a = None -> dget k (a ++ b)%list = dget k b.
+Proof.
+  induction a as [|[[k'|z] v] tl IH]; cbn; intros H; [reflexivity| |apply IH; exact H].
+  destruct (String.eqb k k'); [discriminate | apply IH; exact H].
+Qed.
+Lemma remove_key_app k a b : remove_key k (a ++ b)%list = (remove_key k a ++ remove_key k b)%list.
+Proof.
+  induction a as [|[[k'|z] v] tl IH]; cbn; [reflexivity| |rewrite IH; reflexivity].
+  destruct (String.eqb k k'); rewrite IH; reflexivity.
+Qed.
+Lemma remove_key_absent k a : dget k a = None -> remove_key k a = a.
+Proof.
+  induction a as [|[[k'|z] v] tl IH]; cbn; intros H; [reflexivity| |rewrite IH; [reflexivity | exact H]].
+  destruct (String.eqb k k'); [discriminate|]. rewrite IH; [reflexivity | exact H].
+Qed.
+Lemma norm_items_app a b : norm_items (a ++ b)%list = (norm_items a ++ norm_items b)%list.
+Proof. apply map_app. Qed.
+
+Lemma plain_clean_no_reserved d k : plain_clean (PDict d) = true -> reserved_key k = true -> dget k d = None.
+Proof.
+  intros C R. cbn in C. induction d as [|[[k'|z] v] tl IH]; cbn in *; [reflexivity| |].
+  - apply andb_true_iff in C. destruct C as [C1 C2]. apply andb_true_iff in C1. destruct C1 as [C1 _].
+    destruct (String.eqb k k') eqn:E; [|apply IH; exact C2].
+    apply String.eqb_eq in E. subst. rewrite R in C1. discriminate.
+  - apply andb_true_iff in C. apply IH. apply C.
+Qed.
+
+Section ResultsProofs.
+Variable tbl : Type.
+Variable tbl_json : tbl -> list (pkey * pyv).
+Variable tbl_read : list (pkey * pyv) -> option tbl.
+Variable logv : Type.
+Variable log_json : logv -> list (pkey * pyv).
+Variable log_read : list (pkey * pyv) -> option logv.
+(* pandas: read_json(orient='table') of the text of to_json(orient='table') gives the frame back
+   (where it does not — 15 significant digits — is C20's finding C20-JSON-15-DECIMALS), and the table
+   dictionary has no reserved key; likewise Log *)
+Hypothesis tbl_rt : forall t, tbl_read (norm_items (tbl_json t)) = Some t.
+Hypothesis tbl_clean : forall t k, reserved_key k = true -> dget k (norm_items (tbl_json t)) = None.
+Hypothesis log_rt : forall l, log_read (norm_items (log_json l)) = Some l.
+Hypothesis log_clean : forall l k, reserved_key k = true -> dget k (norm_items (log_json l)) = None.
+
+Notation enc := (encode_field tbl tbl_json logv log_json).
+Notation dec := (decode_field tbl tbl_read logv log_read).
+
+Lemma tagged_decode (J : list (pkey * pyv)) (c : string) :
+  (forall k, reserved_key k = true -> dget k J = None) ->
+  dget "__module__" (J ++ [class_item c])%list = None /\
+  dget "__class__" (J ++ [class_item c])%list = Some (PStr c) /\
+  remove_key "__class__" (remove_key "__module__" (J ++ [class_item c])%list) = J.
+Proof.
+  intros Cl. pose proof (Cl "__module__" eq_refl) as Cm. pose proof (Cl "__class__" eq_refl) as Cc.
+  repeat split.
+  - rewrite (dget_app_none _ _ _ Cm). reflexivity.
+  - rewrite (dget_app_none _ _ _ Cc). reflexivity.
+  - rewrite (remove_key_absent "__module__"); [| rewrite (dget_app_none _ _ _ Cm); reflexivity].
+    rewrite remove_key_app, (remove_key_absent _ _ Cc). cbn. apply app_nil_r.
+Qed.
+
+Lemma field_roundtrip f : field_supported tbl logv f = true ->
+  exists p, enc f = Some p /\ dec (normalise p) = Some f.
+Proof.
+  destruct f as [v|t|t|l| |p|]; cbn [field_supported]; intros S; try discriminate.
+  - exists v. split; [reflexivity|]. apply andb_true_iff in S. destruct S as [J C].
+    rewrite (normalise_fix_lemma v J). destruct v; try reflexivity. unfold decode_field.
+    rewrite (plain_clean_no_reserved d "__module__" C eq_refl), (plain_clean_no_reserved d "__class__" C eq_refl). reflexivity.
+  - eexists. split; [reflexivity|]. cbn [normalise]. fold (norm_items (tbl_json t ++ [class_item "DataFrame"])).
+    rewrite norm_items_app. change (norm_items [class_item "DataFrame"]) with [class_item "DataFrame"].
+    destruct (tagged_decode (norm_items (tbl_json t)) "DataFrame" (tbl_clean t)) as [A [B C]].
+    unfold decode_field. rewrite A, B, C. cbn. rewrite tbl_rt. reflexivity.
+  - eexists. split; [reflexivity|]. cbn [normalise]. fold (norm_items (tbl_json t ++ [class_item "Series"])).
+    rewrite norm_items_app. change (norm_items [class_item "Series"]) with [class_item "Series"].
+    destruct (tagged_decode (norm_items (tbl_json t)) "Series" (tbl_clean t)) as [A [B C]].
+    unfold decode_field. rewrite A, B, C. cbn. rewrite tbl_rt. reflexivity.
+  - eexists. split; [reflexivity|]. cbn [normalise]. fold (norm_items (log_json l ++ [class_item "Log"])).
+    rewrite norm_items_app. change (norm_items [class_item "Log"]) with [class_item "Log"].
+    destruct (tagged_decode (norm_items (log_json l)) "Log" (log_clean l)) as [A [B C]].
+    unfold decode_field. rewrite A, B, C. cbn. rewrite log_rt. reflexivity.
+Qed.
+
+Definition field_item (nf : string * rfield tbl logv) : option (pkey * pyv) :=
+  v <- enc (snd nf) ;; Some (KStr (fst nf), v).
+Definition decode_item (kv : pkey * pyv) : option (string * rfield tbl logv) :=
+  match kv with (KStr k, x) => f <- dec x ;; Some (k, f) | _ => None end.
+
+Lemma fields_roundtrip fields :
+  forallb (fun nf : string * rfield tbl logv => negb (reserved_key (fst nf)) && field_supported tbl logv (snd nf)) fields = true ->
+  exists items, traverse field_item fields = Some items /\
+    (forall k, reserved_key k = true -> dget k (norm_items items) = None) /\
+    traverse decode_item (norm_items items) = Some fields.
+Proof.
+  induction fields as [|[n f] tl IH]; cbn [forallb]; intros S.
+  - exists []. repeat split; reflexivity.
+  - apply andb_true_iff in S. destruct S as [S1 S2]. apply andb_true_iff in S1. destruct S1 as [Nr Sf].
+    destruct (field_roundtrip f Sf) as [p [Ep Dp]]. destruct (IH S2) as [items [Ti [Cl Td]]].
+    exists ((KStr n, p) :: items). cbn [traverse fst snd]. unfold field_item at 1. cbn [fst snd]. rewrite Ep, Ti.
+    split; [reflexivity|]. split.
+    + intros k R. cbn. destruct (String.eqb k n) eqn:E; [|apply Cl; exact R].
+      apply String.eqb_eq in E. subst k. cbn [fst] in Nr. rewrite R in Nr. discriminate.
+    + cbn [norm_items map traverse decode_item norm_key]. fold (norm_items items). rewrite Dp, Td. reflexivity.
+Qed.
+
+Lemma results_roundtrip_lemma r : results_supported tbl logv r = true ->
+  exists p, encode_results tbl tbl_json logv log_json r = Some p /\
+            decode_results tbl tbl_read logv log_read (normalise p) = Some r.
+Proof.
+  destruct r as [m c fields]. unfold results_supported. cbn [r_class r_fields]. intros S.
+  apply andb_true_iff in S. destruct S as [Sc Sf]. destruct (fields_roundtrip fields Sf) as [items [Ti [Cl Td]]].
+  unfold encode_results. cbn [r_fields r_module r_class]. fold field_item. rewrite Ti.
+  eexists. split; [reflexivity|]. cbn [normalise].
+  fold (norm_items (items ++ [(KStr "__module__", PStr m); class_item c])). rewrite norm_items_app.
+  change (norm_items [(KStr "__module__", PStr m); class_item c]) with [(KStr "__module__", PStr m); class_item c].
+  pose proof (Cl "__module__" eq_refl) as Cm. pose proof (Cl "__class__" eq_refl) as Cc.
+  unfold decode_results. rewrite (dget_app_none _ _ _ Cm), (dget_app_none _ _ _ Cc). cbn [dget String.eqb Ascii.eqb Bool.eqb class_item].
+  cbn. rewrite Sc. cbn.
+  rewrite !remove_key_app, (remove_key_absent _ _ Cm), (remove_key_absent _ _ Cc). cbn. rewrite app_nil_r.
+  fold decode_item. rewrite Td. reflexivity.
+Qed.
+End ResultsProofs.
